@@ -983,8 +983,9 @@ class RealBackend(Backend):
         """schema errors of one written file (lxml XMLSchema with the XSDs shipped in /repo/xsd)"""
         from lxml import etree
         if not hasattr(RealBackend, "_schemas"):
-            RealBackend._schemas = (etree.XMLSchema(etree.parse("/repo/xsd/ASCMHL.xsd")),
-                                    etree.XMLSchema(etree.parse("/repo/xsd/ASCMHLDirectory__combined.xsd")))
+            xd = os.environ.get("VERIF_XSD_DIR", "/repo/xsd")
+            RealBackend._schemas = (etree.XMLSchema(etree.parse(xd + "/ASCMHL.xsd")),
+                                    etree.XMLSchema(etree.parse(xd + "/ASCMHLDirectory__combined.xsd")))
         try:
             doc = etree.parse(self.p(rel))
         except etree.XMLSyntaxError as ex:
@@ -1042,7 +1043,8 @@ class RealBackend(Backend):
         elif cmd == "xsd-schema-check":
             if o.get("df"):
                 a.append("-df")
-            a += ["-xsd", "/repo/xsd/ASCMHLDirectory__combined.xsd" if o.get("df") else "/repo/xsd/ASCMHL.xsd"]
+            xd = os.environ.get("VERIF_XSD_DIR", "/repo/xsd")
+            a += ["-xsd", xd + "/ASCMHLDirectory__combined.xsd" if o.get("df") else xd + "/ASCMHL.xsd"]
             a.append(ap(o["file"]))
         if cmd in ("create", "verify", "diff", "flatten"):
             for x in o.get("i", ()):
